@@ -182,6 +182,15 @@ func (x *Ex) genFuncsMore(body *LeanFile) {
 		{"internal/converter", "", "isValidByline"},
 		{"internal/converter", "", "isElementWithoutContent"},
 	})
+	// the prev/next finder: the loop over the anchors and the page-number difference (Model/LinkScore.lean,
+	// Model/Pagination.lean pickTop)
+	x.bodyGroup(body, "prevNextBodies", []string{"C16", "C17"}, [][3]string{
+		{"internal/pagination", "PrevNextFinder", "FindPagination"},
+		{"internal/pagination", "PrevNextFinder", "FindOutlink"},
+		{"internal/pagination", "PrevNextFinder", "getPageDiff"},
+		{"internal/stringutil", "", "EqualsIgnoreCase"},
+		{"internal/stringutil", "", "HasPrefixIgnoreCase"},
+	})
 	// reference resolution (Model/AbsURL.lean)
 	x.bodyGroup(body, "urlBodies", []string{"C06", "C16"}, [][3]string{
 		{"internal/stringutil", "", "CreateAbsoluteURL"},
